@@ -471,6 +471,16 @@ func (cx *evalCtx) ident(name string) (TV, error) {
 			return tv, nil
 		}
 	}
+	if name == "rangeindex" && cx.undefLocals {
+		// the hidden index of a range loop, at a point that is not inside (or behind) any range loop on this path: arbitrary
+		key := "undef:rangeindex"
+		if v, ok := cx.st.vars[key]; ok {
+			return cx.valToTV(v, types.Typ[types.Int])
+		}
+		tv := cx.run.freshOf(cx.st, "undef_rangeindex", types.Typ[types.Int])
+		cx.st.vars[key] = tv
+		return tv, nil
+	}
 	return TV{}, fmt.Errorf("unknown name %q", name)
 }
 
@@ -1058,6 +1068,18 @@ func (cx *evalCtx) call(x *ast.CallExpr) (TV, error) {
 			hn := r.eng.regHeap("GH_held", "(Array Int Int)", types.Typ[types.Int])
 			r.heapDeclare(hn)
 			return TV{not(eq(app("select", r.heapGet(cx.st, hn), as[0].S), "0")), SBool, types.Typ[types.Bool]}, nil
+		case "recvd":
+			// recvd(ch): how many values this thread has taken from channel ch (ghost counter; a receive adds one)
+			as, err := cx.args(x.Args)
+			if err != nil {
+				return TV{}, err
+			}
+			if len(as) != 1 || as[0].Sort != SInt {
+				return TV{}, fmt.Errorf("recvd(ch) expects a channel")
+			}
+			hn := r.eng.regHeap("GH_recv", "(Array Int Int)", types.Typ[types.Int])
+			r.heapDeclare(hn)
+			return TV{app("select", r.heapGet(cx.st, hn), as[0].S), SInt, types.Typ[types.Int]}, nil
 		case "seen":
 			// seen(k): key k was already produced by the map iteration in progress (ghost visited set)
 			as, err := cx.args(x.Args)
